@@ -1,6 +1,10 @@
 package scen
 
-import "verifmc/explore"
+import (
+	"fmt"
+
+	"verifmc/explore"
+)
 
 // DebugRun replays a history in the C19 observer world and returns all violations seen.
 func DebugRun(which string, hist []string) []explore.Violation {
@@ -29,4 +33,73 @@ func DebugRun(which string, hist []string) []explore.Violation {
 	}
 	w.Close()
 	return out
+}
+
+// DebugNet replays a history in the C02 network world (2 writers) and prints what is enabled after each step.
+func DebugNet(hist []string) {
+	w, err := NewNetWorld(C02Arg{DFSArg: DFSArg{Kind: "eventlog", Writers: 2, Depth: 9}, Writes: 4, Faults: 2, Cuts: 1, Restarts: 1})
+	if err != nil {
+		panic(err)
+	}
+	fmt.Println("enabled:", w.Enabled())
+	for _, a := range hist {
+		if err := w.Do(a); err != nil {
+			fmt.Println("ERR", a, err)
+			return
+		}
+		fmt.Println("after", a, "sets:", w.SetKey(0), "|", w.SetKey(1))
+		fmt.Println("   enabled:", w.Enabled())
+	}
+	vs := w.FinalPhase()
+	fmt.Println("after final phase sets:", w.SetKey(0), "|", w.SetKey(1))
+	for _, v := range vs {
+		fmt.Println("FINAL:", v.Signature, v.Detail)
+	}
+	w.Close()
+}
+
+// DebugFetchGated walks the C09 gated-fetch world greedily (always the first enabled action) and prints it.
+func DebugFetchGated(pick func(en []string) int) {
+	w, err := NewMultiDBOpts([]string{"eventlog", "keyvalue"}, []string{"both", "both"}, false, false)
+	if err != nil {
+		panic(err)
+	}
+	if err := w.PrepareFetchGated(2); err != nil {
+		panic(err)
+	}
+	for step := 0; step < 20; step++ {
+		en := w.Enabled()
+		fmt.Println("enabled:", en)
+		if len(en) == 0 {
+			break
+		}
+		a := en[pick(en)]
+		if err := w.Do(a); err != nil {
+			fmt.Println("ERR", err)
+			break
+		}
+		fmt.Println("did", a, "viol:", len(w.Check(nil)), "key:", w.Key())
+	}
+	w.Close()
+}
+
+// DebugFetchGatedDFS runs the gated-fetch search in-process and prints every history it extends.
+func DebugFetchGatedDFS() {
+	st := explore.NewStats()
+	d := &explore.DFS{Scenario: "dbg", Space: "dbg",
+		New: func() (explore.World, error) {
+			w, err := NewMultiDBOpts([]string{"eventlog", "keyvalue"}, []string{"both", "both"}, false, false)
+			if err == nil {
+				err = w.PrepareFetchGated(2)
+			}
+			return w, err
+		},
+		MaxDepth: 9, ShardDepth: 1, Shards: 1, Shard: 0, Stats: st,
+		Journal: func(h []string) { fmt.Println("J", len(h), explore.HistKey(h)) },
+	}
+	d.Run()
+	fmt.Println("violations", len(st.Violations), "errs", st.HarnessErrs, "pruned", st.Pruned, "exec", st.Executions)
+	for _, v := range st.Violations {
+		fmt.Println(v.Signature, v.History)
+	}
 }
